@@ -387,34 +387,6 @@ PROPS["C18"] = dict(
     ],
 )
 
-PARKED_C09 = dict(
-    functions=["sender::uplink_recv::process_uplink_packet (via sender::verif_hooks, polled with kani::block_on)",
-               "SrtlaRegistrationManager::{process_registration_packet, reg1_if_ngp_immediate}", "srtla_protocol::{get_packet_type, parse_srt_ack, "
-               "parse_srt_nak, parse_srtla_ack, extract_keepalive_timestamp}", "RttTracker::handle_keepalive_response", "SrtlaConnection::{clear_pre_registration_state, record_rtt_probe}"],
-    bounds="every datagram of 0..=24 bytes (symbolic length and bytes), all 65536 type codes split over 10 harness instances (one per interpreted "
-           "type, one for all other codes, one for typeless 0..1-byte datagrams); arbitrary link state and registration-manager state; client "
-           "address known or not; NAK ranges <= 3 wide",
-    stubs=["srtla_core::utils::now_ms -> harness-controlled virtual clock", "tokio::net::UdpSocket::try_send_to -> records the call, returns Ok",
-           "tokio::sync::mpsc::UnboundedSender::send -> Ok", "RttTracker::update_estimate -> sample recorder", "alloc::fmt::format -> empty String"],
-    assumptions=["the socket / channel references passed in are never dereferenced (all their entry points are stubbed)",
-                 "clock values <= 2^48 ms"],
-    outside="the actual send_to towards the client (process_connection_events' forwarding loop does socket I/O); datagrams of 25..1500 bytes (the "
-            "relay copy is length-generic); the liveness clause is checked for datagrams of >= 2 bytes: a 1-byte datagram carries no type code "
-            "and is ignored entirely by the code (it neither refreshes last_received nor is relayed) - recorded in DESIGN.md as an observation, "
-            "not treated as a defect because the statement frames the relay rule for 'two or more bytes'",
-    harnesses=[
-        H("c09::c09_other_types", "shell", desc="every type code the sender does not interpret: relayed once, unchanged", timeout=1500),
-        H("c09::c09_typeless", "shell", desc="0..1-byte datagrams: nothing relayed, no panic", timeout=1500),
-        H("c09::c09_srt_ack", "shell", desc="SRT ACK: relayed once (+ instant path iff client known), number extracted", timeout=1500),
-        H("c09::c09_srt_nak", "shell", desc="SRT NAK: relayed once, list extracted", timeout=1500),
-        H("c09::c09_srtla_ack", "shell", desc="SRTLA ACK: consumed, numbers extracted, not delivery proof by itself", timeout=1500),
-        H("c09::c09_keepalive", "shell", desc="keepalive echo: consumed; proof stamped only if a probe was outstanding and 0<RTT<=10s", timeout=1500),
-        H("c09::c09_reg_ngp", "shell", desc="REG_NGP: consumed; immediate REG1 only here", timeout=1500),
-        H("c09::c09_reg2", "shell", desc="REG2: consumed at any length", timeout=1500),
-        H("c09::c09_reg3", "shell", desc="REG3: connects this uplink, warming, clean accounting", timeout=1500),
-        H("c09::c09_reg_err", "shell", desc="REG_ERR: disconnects", timeout=1500),
-    ],
-)
 
 PROPS["C16"] = dict(
     functions=["LinkCongestionState::{tick, update_loss_ewma, update_backoff_efficacy, pick_climb_mode, evict_expired, loss_permille}"],
@@ -474,12 +446,39 @@ PROPS["C17"] = dict(
     ],
 )
 
+C09_ENV = {"VERIF_SV_CAP": "26", "VERIF_C09_MAXD": "24"}
+PROPS["C09"] = dict(
+    functions=["sender::uplink_recv::process_uplink_packet (async fn without a suspending await: polled exactly once, see DESIGN.md 2.5)",
+               "SrtlaRegistrationManager::{process_registration_packet, reg1_if_ngp_immediate}", "SrtlaConnection::{clear_pre_registration_state, record_rtt_probe}",
+               "RttTracker::handle_keepalive_response", "srtla_protocol::{get_packet_type, parse_srt_ack, parse_srt_nak, parse_srtla_ack, extract_keepalive_timestamp}"],
+    bounds="one datagram of 0..=24 bytes (symbolic length and bytes) arriving on an arbitrary uplink index < 3, in any link state under the representation "
+           "invariant (any phase incl. registering / warming / live, connected or not, awaiting a keepalive echo or not, clock <= 2^48), any registration "
+           "manager state over 3 uplinks, client address known or not; all 65536 type codes covered by 10 instances (one per type the sender interprets, "
+           "one for every other code, one for 0..1-byte datagrams); NAK ranges <= 3 wide",
+    stubs=["srtla_core::utils::now_ms -> harness clock", "tokio::net::UdpSocket::try_send_to -> recorder (counts calls, remembers length and first byte), returns Ok",
+           "tokio::sync::mpsc::UnboundedSender::send -> Ok", "RttTracker::update_estimate -> records the sample (the estimator's arithmetic is C14's subject)",
+           "alloc::fmt::format -> empty String"],
+    assumptions=["a warming link has collected <= 1,000,000 RTT probes (it is promoted at 2; u32::MAX probes is unreachable and would overflow the counter)",
+                 "the socket and channel references are never dereferenced (every entry point reachable from the function is stubbed)"],
+    outside="STAGE 1 ONLY: the datagram is classified and queued in SrtlaIncoming::forward_to_client exactly once / never, byte-for-byte (and SRT ACKs also take "
+            "the instant path once). STAGE 2 - process_connection_events handing each queued datagram to the client socket (`send_to(..).await`) - is socket I/O "
+            "cut out of the verification build and is NOT decided, nor is try_send_to's WouldBlock fallback (the stub always succeeds). Datagrams of 25..MTU "
+            "bytes (the function looks at fixed offsets <= 20 and at the lists decided in C15); NAK ranges wider than 3; the earned-SRTLA-ACK proof stamp (C13).",
+    harnesses=[
+        H("c09::c09_other_types", "shell", env=C09_ENV, desc="any type code the sender does not interpret (incl. SRT data from the receiver): relayed once, unchanged; liveness refreshed; no proof stamp", timeout=1500),
+        H("c09::c09_typeless", "shell", env=C09_ENV, desc="0..1-byte datagrams: nothing relayed, no state change, no panic", timeout=1500),
+        H("c09::c09_srt_ack", "shell", env=C09_ENV, desc="SRT ACK: relayed once + instant path once iff client known; number extracted at 16..20", timeout=1500),
+        H("c09::c09_srt_nak", "shell", env=C09_ENV, desc="SRT NAK: relayed once, list parsed", timeout=1500),
+        H("c09::c09_srtla_ack", "shell", env=C09_ENV, desc="SRTLA ACK: never relayed; every number extracted; no proof stamp here", timeout=1500),
+        H("c09::c09_keepalive", "shell", env=C09_ENV, desc="keepalive echo: never relayed; proof stamped only if a probe was outstanding and the echo is accepted", timeout=1500),
+        H("c09::c09_reg_ngp", "shell", env=C09_ENV, desc="REG_NGP: never relayed; immediate REG1 only here; liveness not refreshed", timeout=1500),
+        H("c09::c09_reg2", "shell", env=C09_ENV, desc="REG2: never relayed", timeout=1500),
+        H("c09::c09_reg3", "shell", env=C09_ENV, desc="REG3: never relayed; connects the uplink, warming with clean accounting", timeout=1500),
+        H("c09::c09_reg_err", "shell", env=C09_ENV, desc="REG_ERR: never relayed; disconnects", timeout=1500),
+    ],
+)
+
 NOT_APPLICABLE = {
-    "C09": "the harness over the real process_uplink_packet (hk/shell/src/c09.rs, 10 instances by datagram type, async fn polled with "
-           "kani::block_on, socket entry points stubbed) compiles and encodes, but every instance - even the one for 0..1-byte datagrams - "
-           "drives CBMC past 12-14 GB within 10 minutes (the SrtlaIncoming result carries nested vector models through the async state "
-           "machine); no instance could be decided, so nothing is claimed. The parsers it dispatches to are decided under C15 and the "
-           "earned-ACK / keepalive stamping rules under C13/C14",
     "C19": "the reload parser (analyze_ip_reload_text: str::lines / trim / IpAddr::from_str over a symbolic text) did not finish in CBMC even for "
            "one-character texts (timeout / >14 GB at 20 min per length), and apply_connection_changes is I/O-bound async code (format!-built "
            "label sets, HashSet<String>, socket creation through the binder, tokio); only the SequenceTracker purge clause is decidable and it "
